@@ -1,13 +1,87 @@
 """C10 — clause: the code ranges registered with the runtime are disjoint, so every address resolves to exactly one function."""
+import json
+import os
+import re
+import shutil
+
+import common
 import kprop
+import kx
+import vx
 
 PROP = 'C10'
 
 
+def _row_filter(unit, tier):
+    rows = kx.row_names(os.path.join(common.VERIF, kx.UNITS[unit]['rows']))
+    return set(r for r in rows if not r.endswith('__concrete_only'))
+
+
+def _concrete_codemap_search(budget_cases):
+    """Run the concrete-only CodeMap row on seeded operands against the code cut from the working tree."""
+    d = common.scratch('kx-c10-concrete')
+    try:
+        kx.gen_crate('c10', d)
+        runner = kx.build_runner(d)
+        rc, out, err, wall = common.run_cmd([runner, 'sample', 'codemap_model__concrete_only', str(common.seed()), str(budget_cases)], timeout=600)
+        m = re.search(r'VIOLATED codemap_model__concrete_only operands=\[([0-9, ]*)\]', out)
+        held = re.search(r'ROW codemap_model__concrete_only held=(\d+)', out)
+        if m:
+            ops = [int(x) for x in m.group(1).replace(' ', '').split(',') if x]
+            return dict(found=True, operands=ops, wall_s=round(wall, 2)), out[-1500:]
+        return dict(found=False, cases=int(held.group(1)) if held else 0, wall_s=round(wall, 2)), ''
+    finally:
+        shutil.rmtree(d, ignore_errors=True)
+
+
+def _verus_codemap(rep, cov):
+    """CodeMap::{new, insert, get} under Verus contracts (BTreeMap semantics assumed, CodeSpan laws from the Kani rows)."""
+    nviol = 0
+    workdir = common.ensure_dir(os.path.join(common.BUILD, 'vx'))
+    res = None
+    try:
+        res = vx.verify_unit(os.path.join(common.VERIF, 'contracts', 'c10_codemap.vspec'), workdir)
+    except vx.Undecided as e:
+        rep.undecide(str(e))
+    search = None
+    try:
+        search, tail = _concrete_codemap_search(3000)
+    except Exception as e:
+        rep.undecide('concrete CodeMap search unavailable: %s' % str(e)[:400])
+    found = bool(search and search.get('found'))
+    fi = dict(unit='c10', row='codemap_model__concrete_only', operands=search['operands']) if found else None
+    if res is not None:
+        cov['obligations'] += res['obligations']
+        cov['checker_cmd'] += ' ; ' + res['cmd']
+        cov['trusted_base'] += ['[%s] %s' % (res['unit'], t) for t in res['trusted']]
+        cov['units'].append(dict(unit=res['unit'], verus=res['stats'], wall_s=res['wall_s'], reach=res['reach'],
+                                 functions_under_contract=res['functions_under_contract'], rewrites_applied=res['rewrites_applied'], sources=res['sources']))
+        cov['functions_under_contract'] += ['%s::%s' % (res['unit'], f) for f in res['functions_under_contract']]
+        seen = set()
+        for f in res['failures']:
+            if f['obligation'] in seen:
+                continue
+            seen.add(f['obligation'])
+            payload = dict(unit=res['unit'], function=f['function'], kind=f['kind'], clause=f['clause'], verus_output=f['verus_output'])
+            if fi:
+                payload['failing_input'] = fi
+            rep.violation('verus:%s:%s:%s' % (res['unit'], f['function'], f['kind']), f['obligation'], payload, found)
+            nviol += 1
+        cov['discharged'] += res['obligations'] - len(seen)
+    if found and not (res and res['failures']):
+        rep.violation('concrete:codemap_model', 'CodeMap::get resolves every address to the unique registered range containing it (concrete model check on the cut code)',
+                      dict(failing_input=fi), True)
+        nviol += 1
+    cov['codemap_concrete_search'] = search
+    return nviol
+
+
 def run(tier):
     assumptions = [
-        "std's BTreeMap<CodeSpan, CodeId> behaves as a map when Ord is a strict total order on the stored keys and the query is ordered consistently "
-        "(assumed contract on std; driving BTreeMap under CBMC exhausts memory even for two entries, so CodeMap::{insert,get} are not composed here)",
+        "std's BTreeMap<CodeSpan, CodeId> behaves as a map on the equivalence 'overlaps' when Ord is a strict total order on the stored keys and the query is ordered consistently "
+        "(ASSUMED contract vx_tree_insert / vx_tree_get in c10_codemap.vspec; driving BTreeMap under CBMC exhausts memory even for two entries). "
+        "CodeMap::{new, insert, get} are proved against it in Verus; the CodeSpan order laws it rests on are proved by the Kani rows on the same source text; "
+        "a concrete model check of the real CodeMap (seeded ranges, every address) cross-checks the assumption",
         'CodeMap::insert panics (assert!(..is_none())) AFTER BTreeMap::insert replaced the value of the overlapping key: refusal by panic is accepted',
         'Code (never touched by the extracted items) replaced by an opaque unit struct; visibility of the cut items widened to `pub` so that the rows can call them',
     ]
@@ -21,8 +95,9 @@ def run(tier):
     not_decided = ['presence and shape of stack maps (gc points) at every call site / safepoint in emitted code',
                    'slot ranges inside frames, `.s` metadata, arm64, the optimizing generator',
                    'GcPointTable / LocationTable::get (exact-offset binary search through a closure: outside both verifiers without wrapping the comparison itself)',
-                   'composition through BTreeMap (assumed)']
-    return kprop.run_kani_property(PROP, tier, ['c10'], assumptions=assumptions, samples=samples, not_decided=not_decided)
+                   'BTreeMap itself (assumed)']
+    return kprop.run_kani_property(PROP, tier, ['c10'], assumptions=assumptions, samples=samples, not_decided=not_decided,
+                                   row_filter=_row_filter, extra_steps=_verus_codemap)
 
 
 def replay(rp):
